@@ -58,6 +58,27 @@ def collinear_case(ck, c, scale, off, cfg):
     return True
 
 
+_GL = None
+
+
+def gl_ellipse(rx, ry, a0, a1, pieces=64):
+    """arc length of the ellipse (rx cos a, ry sin a) between the eccentric angles a0, a1 (degrees): composite 8-point Gauss-Legendre"""
+    global _GL
+    if _GL is None:
+        import numpy.polynomial.legendre as L
+        _GL = L.leggauss(8)
+    xs, ws = _GL
+    lo, hi = math.radians(a0), math.radians(a1)
+    h = (hi - lo) / pieces
+    tot = 0.0
+    for i in range(pieces):
+        m = lo + (i + 0.5) * h
+        for x, w in zip(xs, ws):
+            a = m + 0.5 * h * x
+            tot += w * math.sqrt((rx * math.sin(a)) ** 2 + (ry * math.cos(a)) ** 2)
+    return abs(tot * 0.5 * h)
+
+
 def bracket(seg, depth=7):
     """rigorous bracket of the arc length of a Bezier segment: sum of chords <= L <= sum of control-polygon lengths"""
     pieces = [list(seg.bpoints())]
@@ -167,6 +188,20 @@ def run(ck):
                         ck.disagree(key='%s.length/after-a-rough-request' % type(seg).__name__, site='svgpathtools/path.py:length',
                                     what='[%s] %r: length() = %r after length(error=10, min_depth=0) on the same object, %r on a new one' % (cfg, seg, L2, Lg),
                                     case={'z': [str(w) for w in z], 'cfg': cfg}, expected=Lg, observed=repr(L2), driver='generic')
+                # ... and sub-interval lengths asked first on an object that was measured with other control points which were then reassigned
+                if not isinstance(Lg, Exception):
+                    seg3 = make([w * (0.5 + 0.25j) + (1 - 2j) for w in z])
+                    try:
+                        seg3.length()
+                        for nm_, w in zip(('start', 'control', 'end') if n == 3 else ('start', 'control1', 'control2', 'end'), z):
+                            setattr(seg3, nm_, w)
+                        p3 = seg3.length(0, 0.375) + seg3.length(0.375, 1)
+                    except Exception as e:      # noqa
+                        p3 = e
+                    if isinstance(p3, Exception) or not (abs(p3 - parts) <= atol):
+                        ck.disagree(key='%s.length/sub-interval-after-reassigning-control-points' % type(seg).__name__, site='svgpathtools/path.py:length',
+                                    what='[%s] %r: length(0,.375)+length(.375,1) = %r on an object whose control points were reassigned after a length() call, %r on a new one' % (cfg, seg, p3, parts),
+                                    case={'z': [str(w) for w in z], 'cfg': cfg}, expected=parts, observed=repr(p3), driver='generic')
             # paths: sum of the segments
             segs = [sp.Line(0j, 3 + 4j), sp.QuadraticBezier(3 + 4j, 6 + 8j, 3 + 4j), sp.CubicBezier(3 + 4j, 1 + 1j, 5 - 2j, 7 + 0j),
                     sp.Arc(7 + 0j, 5 + 5j, 0, False, True, 13 + 8j)]
@@ -190,6 +225,32 @@ def run(ck):
                         ck.disagree(key='Path.length/not-the-sum/' + nm, site='svgpathtools/path.py:Path.length',
                                     what='[%s] %s path: length() = %r, sum of segments %r' % (cfg, nm, q_.length(), tot),
                                     case={'k': k, 'cfg': cfg, 'how': nm}, expected=tot, observed=q_.length(), driver='path')
+            # a discontinuous path of lines only (pen-up jumps are not part of the length)
+            dp = sp.parse_path('M0,0 L4,0 L4,3 M10,10 L13,14 L13,20 M-5,-5 L-5,-6')
+            ck.case(fp=('path-discontinuous', cfg), nontrivial=True)
+            if not (abs(dp.length() - 19.0) <= 1e-12) or not (abs(sum(dp._lengths) - 1) <= 1e-12):
+                ck.disagree(key='Path.length/not-the-sum/discontinuous', site='svgpathtools/path.py:Path._calc_lengths',
+                            what='[%s] %r: length() = %r, the segments add up to 19' % (cfg, dp, dp.length()), case={'cfg': cfg}, expected=19.0, observed=dp.length(), driver='path')
+            # elliptical arcs (lattice, and nearly circular ones) against an independent Gauss-Legendre quadrature of the speed along the stored ellipse
+            ell = [{'r': [5, 3], 'phi': 2, 'th': 1, 'dl': 7, 'c': [3, -2]}, {'r': [13, 5], 'phi': 0, 'th': -5, 'dl': -17, 'c': [0, 0]}, {'r': [2, 7], 'phi': 5, 'th': 9, 'dl': 23, 'c': [1, 1]}]
+            arcs_ = [(str(A), am.concretise(A), A['r'][0], A['r'][1], 15.0 * A['dl']) for A in ell]
+            for rx, ry in ((2.0, 2.000018), (100.0, 100.0007), (5.0, 5.004), (3.0, 3.0000001)):
+                a_ = sp.Arc(complex(rx, 0), complex(rx, ry), 0, True, True, complex(0, -ry))      # from angle 0 counter-clockwise by 270 degrees
+                arcs_.append(('near-circle %r x %r' % (rx, ry), a_, rx, ry, 270.0))
+            for nm_, arc, rx, ry, delta in arcs_[:None if cfg == 'scipy' else 4]:
+                th0 = arc.theta
+                for (t0, t1) in ((0, 1), (0, 0.375), (0.375, 1), (0.2, 0.7)):
+                    ref = gl_ellipse(rx, ry, th0 + arc.delta * t0, th0 + arc.delta * t1)
+                    ck.case(fp=('ellipse-arc', nm_, t0, t1, cfg), nontrivial=True)
+                    try:
+                        got = arc.length(t0, t1)
+                    except Exception as e:      # noqa
+                        got = e
+                    if isinstance(got, Exception) or not (abs(got - ref) <= 1e-6 * ref):
+                        ck.disagree(key='Arc.length/ellipse-vs-independent-quadrature', site='svgpathtools/path.py:Arc.length',
+                                    what='[%s] %s: length(%r, %r) = %r, Gauss-Legendre quadrature of the speed gives %r' % (cfg, nm_, t0, t1, got, ref),
+                                    case={'arc': nm_, 't0': t0, 't1': t1, 'cfg': cfg}, expected=ref, observed=repr(got), driver='arc')
+                        break
     finally:
         sppath._quad_available = old
     ck.sample('collinear', cases[0])
